@@ -393,6 +393,16 @@ def open_calls(p, f):
     return out
 
 
+def open_calls_deep(p, f):
+    """open() calls of f and of the helpers of its own class / module that it calls (a reader moved into read_bytes(path) ...)"""
+    out = list(open_calls(p, f))
+    for _c, ts, _k in p.calls(f):
+        for g, _ctx in ts:
+            if g is not f and g.mod is f.mod and (g.cls is f.cls or g.cls is None) and not g.name.startswith('check_'):
+                out += open_calls(p, g)
+    return out
+
+
 def rw(run, p, E, rt):
     """Reference writer and reader agree per kind of result."""
     run.rule('C10-RW', 'per result kind the regeneration writer and the comparison reader agree: binary wb/rb; DataFrame '
@@ -407,7 +417,7 @@ def rw(run, p, E, rt):
         modes += ms
         encs.append(enc)
     rb = p.method('FilesComparison', 'check_binary_file')
-    rmodes = [m.value for n, m, e in open_calls(p, rb) if isinstance(m, ast.Constant)]
+    rmodes = [m.value for n, m, e in open_calls_deep(p, rb) if isinstance(m, ast.Constant)]
     run.ob('C10-RW', '%s::%s::binary' % (w.rel, w.short), 'wb' in modes and rmodes and all(m == 'rb' for m in rmodes),
            'binary references: written with %s, read with %s' % (sorted(set(modes)), sorted(set(rmodes))), fn=w)
     # dataframe: extension test identical on both sides
@@ -458,7 +468,7 @@ def rw(run, p, E, rt):
     txt_enc = [ast.unparse(e) if e is not None else None for (n, mode, e) in oc]
     rd_enc = []
     for r in readers:
-        for n, mode, enc in open_calls(p, r):
+        for n, mode, enc in open_calls_deep(p, r):
             rd_enc.append(ast.unparse(enc) if enc is not None else None)
     ok = all(e is not None for e in txt_enc) or all(e is None for e in rd_enc)
     run.ob('C10-RW', '%s::%s::text-encoding' % (w.rel, w.short), ok,
